@@ -260,6 +260,56 @@ def run(chk):
         return True, "", ["%d tagged labels, all Label::new(<identifier literal>)" % n]
     chk.ob("C13.R5:identifier-tags", "only labels that are identifier literals carry the no-escaping hint; computed keys are escaped", ident_tags)
 
+    # ---- R6: value conversions in the sinks keep the value ---------------------------------------------------------------------------------
+    LOSSY_ALLOW = {
+        (r"^emit_file::rolling_millis$", "u128", "u32"): "milliseconds within one day/hour/minute fit 32 bits",
+        (r"^emit_file::rolling_id$", "u64", "u32"): "a random id: truncation keeps randomness",
+        (r"LogsEventEncoder as emit_otlp::data::EventEncoder>::encode_event", "u128", "u64"): "unix nanoseconds until 2554 fit 64 bits (OTLP's field type)",
+        (r"MetricsEventEncoder as emit_otlp::data::EventEncoder>::encode_event", "u128", "u64"): "unix nanoseconds (OTLP's field type)",
+        (r"TracesEventEncoder as emit_otlp::data::EventEncoder>::encode_event", "u128", "u64"): "unix nanoseconds (OTLP's field type)",
+    }
+    INT = {"u8": (0, 2 ** 8 - 1), "u16": (0, 2 ** 16 - 1), "u32": (0, 2 ** 32 - 1), "u64": (0, 2 ** 64 - 1), "usize": (0, 2 ** 64 - 1),
+           "u128": (0, 2 ** 128 - 1), "i8": (-2 ** 7, 2 ** 7 - 1), "i16": (-2 ** 15, 2 ** 15 - 1), "i32": (-2 ** 31, 2 ** 31 - 1),
+           "i64": (-2 ** 63, 2 ** 63 - 1), "isize": (-2 ** 63, 2 ** 63 - 1), "i128": (-2 ** 127, 2 ** 127 - 1)}
+
+    def lossless_casts():
+        n = 0
+        for b in P.bodies.values():
+            if b.crate not in ("emit_otlp", "emit_file", "emit_term") or "generated" in b.file:
+                continue
+            for bb, j, st in b.statements(normal_only=True):
+                if st["k"] != "assign" or st["rv"]["k"] != "cast":
+                    continue
+                f, t = st["rv"].get("from_ty"), st["rv"].get("ty")
+                if f in INT and t in INT and not (INT[t][0] <= INT[f][0] and INT[f][1] <= INT[t][1]):
+                    n += 1
+                    if not any(re.search(rx, b.key) and f == ff and t == tt for (rx, ff, tt) in LOSSY_ALLOW):
+                        return False, ("%s casts %s to %s with `as` at %s:%s: a value outside the target's range changes (wraps or changes sign) on "
+                                       "its way to the output - e.g. a u64 above i64::MAX would be exported as a negative intValue instead of decimal "
+                                       "text" % (b.key, f, t, b.file, st.get("line"))), [], "%s:%s" % (b.file, st.get("line"))
+        return True, "", ["%d narrowing casts, all in the allow table" % n]
+    chk.ob("C13.R6:lossless-int-casts", "no integer is narrowed or sign-changed with `as` on its way to a sink's output (outside a reasoned table of timestamps/ids)", lossless_casts)
+
+    def typed_casts_only():
+        """Well-known values (level, ids, kind ...) are read from properties with the typed cast (typed value, else its text form), never by a
+        bare downcast or a borrowed-string view, which would miss textual, Display-captured or buffered values."""
+        n = 0
+        for b in P.bodies.values():
+            if b.crate not in ("emit_otlp", "emit_file", "emit_term"):
+                continue
+            for c in b.calls(normal_only=True):
+                pth = c.callee.get("path") or ""
+                if "value::Value" in pth and c.callee.get("name") in ("downcast_ref", "to_borrowed_str"):
+                    return False, ("%s reads a property with Value::%s at %s: only the exact typed / borrowed-string carrier is recognised, so a textual "
+                                   "level such as `lvl: \"warn\"` (or a buffered id) is silently replaced by the default in the dedicated field"
+                                   % (b.key, c.callee.get("name"), c.loc)), [], c.loc
+                if "value::Value" in pth and c.callee.get("name") in ("cast", "parse", "to_cow_str", "to_f64_sequence", "as_f64_sequence"):
+                    n += 1
+        if n < 8:
+            raise mir.AnchorMissing("typed casts of property values in the sinks (found %d)" % n)
+        return True, "", ["%d typed casts" % n]
+    chk.ob("C13.R4:typed-casts", "the sinks read well-known values with the typed cast (typed, else parsed from text), never with a bare downcast", typed_casts_only)
+
     common.arg_agreement_rule(chk, P, "C13", [("emit_otlp", None), ("emit_term", None)], 30)
     return chk
 
